@@ -49,6 +49,8 @@ def gen_params(rng, variant=None):
     p["with_node"] = True if ident else rng.random() < 0.7
     p["third_basetype"] = False if ident else rng.random() < 0.5
     p["third_config"] = False if ident else rng.random() < 0.5
+    p["third_config_own_mapping"] = False if ident else rng.random() < 0.6     # the third path configuration has its own folder vocabulary
+    p["twin_basetype"] = False if ident else rng.random() < 0.5               # a basetype with the SAME key names as the shot one (other type code)
     p["sep"] = "_" if ident else rng.choice(["_", "-", "_", "="])   # (no regex metacharacters: literal template parts are read as regex by the resolver)
     p["folders"] = {"prod": "PROD", "assets": "ASSETS", "shots": "SHOTS", "output": "OUTPUT", "export": "EXPORT", "renders": "RENDERS"} if ident else rng.choice([
         {"prod": "PROD", "assets": "ASSETS", "shots": "SHOTS", "output": "OUTPUT", "export": "EXPORT", "renders": "RENDERS"},
@@ -115,6 +117,15 @@ def build(p):
         T.append((R + "__" + K["version"], tpl(r_levels, cr)))
         T.append((R, tpl(r_levels[:2], cr)))
         to_ex.append(R + "__" + K["version"])
+    W = None
+    cw = "w9"
+    if p.get("twin_basetype"):
+        W = "edit"
+        w_levels = [K["project"], K["type"], K["sequence"], K["task"], K["version"], K["state"]]   # the shot hierarchy without the shot level
+        T.append((W + "__file", tpl(w_levels, cw, leaf, "scenes")))
+        T.append((W + "__" + K["state"], tpl(w_levels, cw)))
+        T.append((W, tpl(w_levels[:2], cw)))
+        to_ex.append(W + "__" + K["state"])
     T.append((P, "{%s}" % K["project"]))
     vp, vn = p["version_pat"]
     images = ["exr", "png"]
@@ -132,11 +143,13 @@ def build(p):
             "{%s:%s}" % (K["type"], ca): "{%s:%s}" % (K["type"], _alt([ca])),
             "{%s:%s}" % (K["type"], cs): "{%s:%s}" % (K["type"], _alt([cs])),
             "{%s:%s}" % (K["type"], cr): "{%s:%s}" % (K["type"], _alt([cr])),
+            "{%s:%s}" % (K["type"], "w9"): "{%s:%s}" % (K["type"], _alt(["w9"])),
         },
         A + "__": {"{%s}" % K["task"]: "{%s:%s}" % (K["task"], _alt(p["asset_tasks"])),
                    "{%s}" % K["assettype"]: "{%s:%s}" % (K["assettype"], _alt(p["asset_types"])),
                    "{%s}" % K["layer"]: "{%s:%s}" % (K["layer"], _alt(["pre", "post"]))},
         S + "__": {"{%s}" % K["task"]: "{%s:%s}" % (K["task"], _alt(p["shot_tasks"]))},
+        "edit__": {"{%s}" % K["task"]: "{%s:%s}" % (K["task"], _alt(p["shot_tasks"]))},
     }
     alias = {}
     if "maya" in p["scenes"]:
@@ -156,22 +169,26 @@ def build(p):
     if R:
         leaf_keys[R] = leaf
         narrowing[R] = "%s=~%s" % (K["type"], cr)
+    if W:
+        key_types[W] = w_levels + [leaf]
+        leaf_keys[W] = leaf
+        narrowing[W] = "%s=~%s" % (K["type"], cw)
     # ----- fs
     F = p["folders"]
     sep = p["sep"]
     if p["mapping_style"] == "identity":
         m_proj = {x: x for x in p["projects"]}
-        m_type = {ca: ca, cs: cs, cr: cr}
+        m_type = {ca: ca, cs: cs, cr: cr, "w9": "w9"}
         m_state = {x: x for x in p["states"]}
     elif p["mapping_style"] == "swap" and len(p["states"]) >= 2:
         m_proj = {x.upper(): x for x in p["projects"]}
-        m_type = {F["assets"]: ca, F["shots"]: cs, F["renders"]: cr}
+        m_type = {F["assets"]: ca, F["shots"]: cs, F["renders"]: cr, "EDITS": "w9"}
         st = p["states"]
         # one-to-one, sid-side values reuse path-side names (a rotation): NOT idempotent
         m_state = {st[i]: st[(i + 1) % len(st)] for i in range(len(st))}
     else:
         m_proj = {x.upper(): x for x in p["projects"]}
-        m_type = {F["assets"]: ca, F["shots"]: cs, F["renders"]: cr}
+        m_type = {F["assets"]: ca, F["shots"]: cs, F["renders"]: cr, "EDITS": "w9"}
         names = ["WORK", "PUBLISH", "FINAL"]
         m_state = {names[i]: s for i, s in enumerate(p["states"])}
     root = "{@project_root}"
@@ -215,6 +232,14 @@ def build(p):
         PT.append((R + "__" + K["version"], fs(r_dir)))
         PT.append((R + "__" + K["pass"], fs(r_dir[:-1])))
         PT.append((R, fs(r_dir[:3])))
+    if W:
+        w_dir = [ph(K["project"]), F["prod"], ph(K["type"], "EDITSDIR"), ph(K["sequence"]), ph(K["task"]), ph(K["version"])]
+        w_name = sep.join([ph(K["sequence"]), ph(K["task"]), ph(K["state"]), ph(K["version"])])
+        PT.append((W + "__file", fs(w_dir, w_name + "." + ph(leaf, "scenes"))))
+        PT.append((W + "__" + K["version"], fs(w_dir)))
+        PT.append((W + "__" + K["task"], fs(w_dir[:-1])))
+        PT.append((W + "__" + K["sequence"], fs(w_dir[:-2])))
+        PT.append((W, fs(w_dir[:3])))
     PT.append((P, fs([ph(K["project"])])))
     inv = lambda m: {v: k for k, v in m.items()}   # noqa
     fs_kp = {
@@ -223,13 +248,20 @@ def build(p):
         "{%s:ASSETSDIR}" % K["type"]: "{%s:%s}" % (K["type"], _alt([inv(m_type)[ca]])),
         "{%s:SHOTSDIR}" % K["type"]: "{%s:%s}" % (K["type"], _alt([inv(m_type)[cs]])),
         "{%s:RENDERSDIR}" % K["type"]: "{%s:%s}" % (K["type"], _alt([inv(m_type)[cr]])),
+        "{%s:EDITSDIR}" % K["type"]: "{%s:%s}" % (K["type"], _alt([inv(m_type)["w9"]])),
     }
+    # third path configuration with its own vocabulary (other state folder names), still one-to-one
+    m_state3 = {("B_" + k): v for k, v in m_state.items()}
+    fs_kp3 = dict(fs_kp)
+    fs_kp3["{%s}" % K["state"]] = "{%s:%s}" % (K["state"], _alt(list(m_state3.keys())))
     return {"sid_templates": T, "to_extrapolate": to_ex, "key_patterns": kp, "alias": alias, "key_types": key_types, "leaf_keys": leaf_keys,
             "narrowing": narrowing, "projects": p["projects"], "path_templates": PT, "fs_key_patterns": fs_kp,
             "path_mapping": {K["project"]: m_proj, K["type"]: m_type, K["state"]: m_state},
             "path_defaults": {K["state"]: list(m_state.keys())[0]},
-            "asset_types": p["asset_types"], "states": p["states"], "type_codes": [ca, cs] + ([cr] if R else []),
-            "names": {"A": A, "S": S, "P": P, "R": R, "K": K}, "constants": p["constants"], "third_config": p["third_config"],
+            "asset_types": p["asset_types"], "states": p["states"], "type_codes": [ca, cs] + ([cr] if R else []) + ([cw] if W else []),
+            "third_mapping": {K["project"]: m_proj, K["type"]: m_type, K["state"]: m_state3} if p.get("third_config_own_mapping") else None,
+            "third_fs_key_patterns": fs_kp3, "third_defaults": {K["state"]: list(m_state3.keys())[0]},
+            "names": {"A": A, "S": S, "P": P, "R": R, "W": W, "K": K}, "constants": p["constants"], "third_config": p["third_config"],
             "with_assettype": p["with_assettype"]}
 
 
@@ -261,16 +293,16 @@ def emit(p, dirpath):
     with open(os.path.join(dirpath, "spil_sid_conf.py"), "w") as f:
         f.write("\n".join(sid) + "\n")
 
-    def fsmod(root_name, extra=""):
+    def fsmod(root_name, mapping=None, kp=None, defaults=None):
         lines = ["from spil_sid_conf import key_patterns as _kp", "import copy", "from pathlib import Path",
                  "project_root_path = Path(__file__).parent / 'data' / 'testing' / 'SPIL_PROJECTS' / %r / 'PROJECTS'" % root_name,
                  "path_templates = {}"]
         for n, t in d["path_templates"]:
             lines.append("path_templates[%r] = %r.replace('{@project_root}', project_root_path.as_posix())" % (n, t))
-        lines += ["path_defaults = %s" % _py(d["path_defaults"]), "sidkeys_to_extrakeys = {}", "extrakeys_to_sidkeys = {}",
-                  "path_mapping = %s" % _py(d["path_mapping"]), "search_path_mapping = {}",
+        lines += ["path_defaults = %s" % _py(defaults or d["path_defaults"]), "sidkeys_to_extrakeys = {}", "extrakeys_to_sidkeys = {}",
+                  "path_mapping = %s" % _py(mapping or d["path_mapping"]), "search_path_mapping = {}",
                   "key_patterns = copy.deepcopy(_kp)",
-                  "key_patterns[''].update(%s)" % _py(d["fs_key_patterns"])]
+                  "key_patterns[''].update(%s)" % _py(kp or d["fs_key_patterns"])]
         return "\n".join(lines) + "\n"
     with open(os.path.join(dirpath, "spil_fs_conf.py"), "w") as f:
         f.write(fsmod("LOCAL"))
@@ -279,9 +311,12 @@ def emit(p, dirpath):
     configs = {"local": "spil_fs_conf", "server": "spil_fs_server_conf"}
     if d["third_config"]:
         with open(os.path.join(dirpath, "spil_fs_third_conf.py"), "w") as f:
-            f.write(fsmod("BACKUP"))
+            if d["third_mapping"]:
+                f.write(fsmod("BACKUP", d["third_mapping"], d["third_fs_key_patterns"], d["third_defaults"]))
+            else:
+                f.write(fsmod("BACKUP"))
         configs["backup"] = "spil_fs_third_conf"
-    state_types = [A + "__" + K["state"], S + "__" + K["state"]]
+    state_types = [A + "__" + K["state"], S + "__" + K["state"]] + ([d["names"]["W"] + "__" + K["state"]] if d["names"]["W"] else [])
     data = '''
 from __future__ import annotations
 from pathlib import Path
@@ -335,10 +370,10 @@ create_file_using_touch = True
 def get_data_json_path(sid_path: Path) -> Path:
     return sid_path.with_name('.' + sid_path.name).with_suffix(path_data_suffix)
 ''' % {"configs": configs, "constants": d["constants"], "kproject": K["project"], "projects": d["projects"], "ktype": K["type"],
-       "codes": d["type_codes"], "P": P, "bts": [A, S] + ([d["names"]["R"]] if d["names"]["R"] else []), "A": A,
+       "codes": d["type_codes"], "P": P, "bts": [A, S] + ([d["names"]["R"]] if d["names"]["R"] else []) + ([d["names"]["W"]] if d["names"]["W"] else []), "A": A,
        "kassettype": K["assettype"], "asset_types": d["asset_types"], "kstate": K["state"], "states": d["states"],
        "state_types": state_types, "with_assettype": d["with_assettype"],
-       "no_getter": [P, A, S] + state_types + ([A + "__" + K["assettype"]] if d["with_assettype"] else [])}
+       "no_getter": [P, A, S] + ([d["names"]["W"]] if d["names"]["W"] else []) + state_types + ([A + "__" + K["assettype"]] if d["with_assettype"] else [])}
     with open(os.path.join(dirpath, "spil_data_conf.py"), "w") as f:
         f.write(data)
     return d
